@@ -4,7 +4,7 @@
   hand-written `Mod.apply` the C08 theorems are about — for every input, with fuel 2, and any
   larger fuel gives the same result.
 -/
-import Gts.Gen.Arith
+import Gts.Gen.ArithModifier
 import Gts.Model.Region
 namespace Gts.Bridge
 open Gts
